@@ -442,11 +442,24 @@ func shapeKey(c case29) string {
 }
 
 // removeIn runs the real RemoveSignaturesFile on data inside a fresh sandbox.
-func removeIn(data []byte) (err error, outExists bool, touchedOut bool, diff []string, outPath string, sb *fsx.Sandbox) {
+// record: arm the os-call recorder and snapshot the directory (needed to judge "writes nothing").
+func removeIn(data []byte, record bool) (err error, outExists bool, touchedOut bool, diff []string, outPath string, sb *fsx.Sandbox) {
 	sb = fsx.New()
 	in := sb.Put("in.pdf", data, 0644)
 	out := sb.P("out.pdf")
 	conf := model.NewDefaultConfiguration()
+	if !record {
+		func() {
+			defer func() {
+				if r := recover(); r != nil {
+					err = fmt.Errorf("panic: %v", r)
+				}
+			}()
+			err = api.RemoveSignaturesFile(in, out, conf)
+		}()
+		_, statErr := os.Stat(out)
+		return err, statErr == nil, false, nil, out, sb
+	}
 	res := sb.Run(fsx.RunCfg{}, func() error { return api.RemoveSignaturesFile(in, out, conf) })
 	err = res.Err
 	if res.Panicked {
@@ -475,9 +488,13 @@ func runCase29(c case29) []mism29 {
 		ms = append(ms, mism29{Key: key, What: what, Case: c, Got: got})
 	}
 	data := build29(c)
-	sandboxMu.Lock()
-	err, outExists, touched, diff, out, sb := removeIn(data)
-	sandboxMu.Unlock()
+	if c.Outcome == "nosig" {
+		sandboxMu.Lock()
+	}
+	err, outExists, touched, diff, out, sb := removeIn(data, c.Outcome == "nosig")
+	if c.Outcome == "nosig" {
+		sandboxMu.Unlock()
+	}
 	defer sb.Close()
 	if keep := os.Getenv("SIG_KEEP"); keep != "" {
 		os.WriteFile(keep+"/in.pdf", data, 0644)
@@ -602,9 +619,7 @@ func sample29(path, id string) []mism29 {
 		fail("sample-unreadable|"+id, fmt.Sprintf("sample cannot be projected: %v", berr), nil)
 		return ms
 	}
-	sandboxMu.Lock()
-	rerr, _, _, _, out, sb := removeIn(data)
-	sandboxMu.Unlock()
+	rerr, _, _, _, out, sb := removeIn(data, false)
 	defer sb.Close()
 	if rerr != nil {
 		what := "error"
@@ -694,7 +709,8 @@ func runC29() {
 		if c.Outcome == "nosig" {
 			nosig++
 		} else {
-			nontrivial[shapeKey(c)+"|"+strings.Join(sortedCopy(c.Perms), "+")+fmt.Sprint(c.Link, c.NP)] = true
+			fj, _ := json.Marshal(c.Fields)
+			nontrivial[string(fj)+"|"+strings.Join(sortedCopy(c.Perms), "+")+fmt.Sprint(c.Link, c.NP)] = true
 		}
 		put(runCase29(c))
 	}
